@@ -48,9 +48,14 @@ CLAIMED = {
         technique="deterministic simulation: monomial journeys with large exponents through every stage, the text-file stage under the FileSeam (stream kind, locale, explicit encodings, write faults); exponent tuples as the oracle",
         text="Polynomials with exponents from {0..600, powers of two +-1 up to 1e5, the byte/ASCII/latin-1/surrogate/BMP boundaries, byte pairs that form valid UTF-8} are carried through a seeded sequence of stages (raw structured view and back, alignment, *, **, derivative, evaluation, symbol swap, pickle, savetxt->loadtxt on text/bytes streams and paths under utf-8/latin-1/ascii locales, explicit save encodings and write faults); after each stage the stage raised or the (exponent tuple, coefficient) set equals the model. Range sweeps encode/decode every exponent of a window (thorough: the whole representable range) and multiply (sum c_a q0**a)*q0**b for every a+b<=600.",
         note="A raising stage is a violation only below exponent 55 000 and outside the text stage. Symbol substitution is limited to exponents <= 300 (power is repeated multiplication). int64 coefficients; journeys whose model coefficients would overflow stop undecided."),
+
+    "C15": dict(level="exploration", ref="DESIGN.md §4 C15",
+        technique="deterministic simulation: option histories (C14 program shapes) x dataflow programs, twin execution under defaults as the oracle",
+        text="Small dataflow programs over a pool of polynomials (construct, + - * **, derivative/gradient/hessian by name/index/polynomial, full/partial/polynomial evaluation, indexing, alignment, clean_attributes, pickle, comparisons, lead_*, argmax, maximum, str/repr, shape functions) run inside option histories (nested global_options blocks, set_options inside blocks, exception exits; retain_*/sort_*/display_*/force_number_suffix), so operands built under one regime are consumed under another; the same program runs a second time under the shipped defaults (ordering steps with the same sort_*, text steps with the same display_*) and every step must agree in outcome class, shape, coefficient dtype and canonical value.",
+        note="Division is excluded (the property quantifies it under default retain options). Steps designating an indeterminate that retain_names=False legitimately pruned, and positional results (gradient/hessian/lead_exponent) over pruned names, are undecided. Its per-call core is configuration sampling; what simulation adds is the history through which the setting and the operands came about."),
 }
 
-PENDING = {k: "check under construction in this session; will be claimed (see DESIGN.md verdict table)" for k in ["C15"]}
+PENDING = {}
 
 NOT_APPLICABLE = {
     "C01": "ring arithmetic is a pure function of the operands: no schedule, clock, fault, stream or global history in any clause; its one environment dependence (unwritten coefficients) is decided under C12",
